@@ -450,7 +450,11 @@ class DiscretizedSpace(TensorSpace):
                     else:
                         newshape = tuple(space.shape[int(i)] for i in indices)
 
-                    weighting = part.cell_volume
+                    # Same default as in `uniform_discr_frompartition`
+                    if space.exponent == float('inf'):
+                        weighting = 1.0
+                    else:
+                        weighting = part.cell_volume
                     tspace = type(space.tspace)(
                         newshape, space.dtype,
                         exponent=space.exponent, weighting=weighting)
